@@ -211,7 +211,7 @@ C14_Applies(c, r, v) == EdgesMapped(c, r) /\ Len(r.oe) = Len(c.edges)
 DrawnWithout(r, k) == {DrawnArc(r.oe[j]) : j \in Routed(r) \ {k}}
 C14_Fail(c, r, v) ==
     If(IsAcyclic(ArcSet(c.edges)) => \A k \in Routed(r) : r.oe[k].ahs = 0, "DagUntouched")
-    \cup If(c.p1 = "dfs" => \A k \in Routed(r) :
+    \cup If(c.p1 \in {"dfs", "dfsrand", "randdfs"} => \A k \in Routed(r) :
                \* un-reversing k alone re-creates a cycle: its input head reaches its input tail without k
                r.oe[k].ahs = 1 => r.oe[k].f \in DReach(DrawnWithout(r, k), {r.oe[k].t}), "Irredundant")
 C14_NonTrivial(c, r, v) == (\E k \in Routed(r) : r.oe[k].ahs = 1) \/ ~IsSimple(c.edges)
